@@ -241,11 +241,17 @@ def r2_lme(ctx):
     p = readers[0]
     sub = {k: bp[k] for k in ("res", "an")} if bp else {}
     CI = "$1.parameters['cov_re_unscaled_inv']"
-    ok = bool(sub) and unify(pl, ["if not $1.with_random_slope_age", "?re = {'random_intercept': np.sum(?res) / (len($3) + " + CI + ".item())}", "return (?re, ?res)"], sub) is not None
-    ctx.check(ok, "C20.R2", p, p.node, "intercept-only shortcut = sum(r)/(n + c)", "the intercept-only random effect is no longer sum(r)/(n + c)", construct="intercept-only shortcut")
+    RI = "np.sum(?res) / (len($3) + " + CI + ".item())"
+    ok = bool(sub) and (unify(pl, ["if not $1.with_random_slope_age", "?re = {'random_intercept': " + RI + "}", "return (?re, ?res)"], sub) is not None
+                        or unify(pl, ["if not $1.with_random_slope_age", "?ri = " + RI, "?re = {'random_intercept': ?ri}", "return (?re, ?res)"], sub) is not None)
+    joined = "; ".join(pl)
+    ctx.form("C20.R2", p, p.node, joined, {joined} if ok else set(), ["np.sum(", "len($3) + " + CI + ".item()", "'random_intercept'"], "intercept-only shortcut = sum(r)/(n + c)",
+             "the intercept-only random effect is no longer sum(r)/(n + c)", construct="intercept-only shortcut")
     G_ = "$0._generic_get_random_effects(?res, " + X_ + ", " + CI + ").squeeze()"
-    ok = bool(sub) and unify(pl, ["?re = {'random_intercept': " + G_ + "[0], 'random_slope_age': " + G_ + "[1]}", "return (?re, ?res)"], sub) is not None
-    ctx.check(ok, "C20.R2", p, p.node, "(intercept, slope) = generic formula with Z = X", "random intercept / slope are no longer the two components of the generic formula with Z = X", construct="intercept and slope")
+    ok = bool(sub) and (unify(pl, ["?re = {'random_intercept': " + G_ + "[0], 'random_slope_age': " + G_ + "[1]}", "return (?re, ?res)"], sub) is not None
+                        or unify(pl, ["?g = " + G_, "?re = {'random_intercept': ?g[0], 'random_slope_age': ?g[1]}", "return (?re, ?res)"], sub) is not None)
+    ctx.form("C20.R2", p, p.node, joined, {joined} if ok else set(), ["$0._generic_get_random_effects(", CI, "[0]", "[1]", "'random_slope_age'"], "(intercept, slope) = generic formula with Z = X",
+             "random intercept / slope are no longer the two components of the generic formula with Z = X", construct="intercept and slope")
     ok = "$3, $2 = $0._remove_nans($3, $2)" in pl
     ctx.check(ok, "C20.R2", p, p.node, "missing values dropped together with their ages", "missing values are no longer dropped (with their ages) before computing residuals", construct="NaN removal")
     t = readers[1]
